@@ -132,7 +132,7 @@ def generate(rng, tier, index):
                 v = rng.random() < 0.5
             ops.append({"op": "assign", "field": f, "val": v})
         elif k == "call":
-            b = rng.choice([None, None, None] + NAMES + ["foo", "", "<class>", "auto", " z3", "z3 ", "Z3", "default", "Sugar", "cspuz-core"])
+            b = rng.choice([None, None, None] + NAMES + ["foo", "", "<class>", "auto", " z3", "z3 ", "Z3", "default", "Sugar", "cspuz-core", "z3x", "sugar_extended_v2", "cspuz_core2", "csug"])
             ops.append({"op": "call", "kind": rng.choice(["find_answer", "solve"]), "backend": b, "early_solver": rng.random() < 0.4})
         else:
             fn = rng.choice(GRAPH_FNS)
